@@ -185,7 +185,7 @@ def execute(R, ctx):
                 if db.is_verified(l) != want:
                     raise Violation("ruledb-verified-mismatch", f"after insertion #{n_ins} RuleDBForest.is_verified({l})={not want}, reference {want}")
             # internal probes (read only)
-            if tm._gap_size > 1:  # pylint: disable=protected-access
+            if getattr(tm, "_gap_size", 1) > 1:
                 ctx.probe("gap_resized")
             if any(s < 0 for s in r[2]):
                 ctx.probe("negative_shift_inserted")
